@@ -707,3 +707,182 @@ def close_result_name(f):
             if mc and mc[1] == "close" and isinstance(n.targets[0], ast.Name):
                 return n.targets[0].id
     return None
+
+
+# ------------------------------------------------------------------ C02.R3
+class EnterSafety(Domain):
+    """state = (origin of the receiving deque: None|'attr'|'fresh', appended, handed)"""
+
+    NORAISE = {"deque", "hasattr", "isinstance", "list", "len", "dict"}
+
+    def __init__(self, deq):
+        self.deq = deq
+
+    def initial(self):
+        return (None, False, False)
+
+    def on_store(self, target, value, state, stmt):
+        origin, app, handed = state
+        if isinstance(target, ast.Name) and target.id == self.deq:
+            if isinstance(value, ast.Call) and dotted(value.func) in ("deque", "collections.deque"):
+                return ("fresh", False, False)
+            return ("attr", False, False)
+        return state
+
+    def on_event(self, node, state):
+        origin, app, handed = state
+        if isinstance(node, ast.Call):
+            mc = method_call(node)
+            name = dotted(node.func)
+            if mc and mc[0] == self.deq and mc[1] in ("append", "appendleft", "extend"):
+                yield (origin, True, handed), NORMAL
+                return
+            # the local deque handed to something that closes or keeps it
+            if any(dotted(a) == self.deq for a in node.args) or any(dotted(k.value) == self.deq for k in node.keywords):
+                yield (origin, app, True), NORMAL
+                yield (origin, app, True), RAISE("Exception")
+                return
+            if name in self.NORAISE:
+                yield state, NORMAL
+                return
+            if (mc and mc[1] == "send") or name == "next":
+                yield state, NORMAL
+                yield state, RAISE("StopIteration")
+                yield state, RAISE("Exception")
+                return
+            yield state, NORMAL
+            yield state, RAISE("Exception")
+            return
+        yield state, NORMAL
+
+
+def _enter_safety_assume(self, test, truth, state):
+    """`deeds is not self.deeds` is decided by the origin of the local deque."""
+    origin = state[0]
+    t, neg = test, False
+    while isinstance(t, ast.UnaryOp) and isinstance(t.op, ast.Not):
+        t, neg = t.operand, not neg
+    if isinstance(t, ast.Compare) and len(t.ops) == 1 and isinstance(t.ops[0], (ast.Is, ast.IsNot)):
+        l, r = dotted(t.left), dotted(t.comparators[0])
+        if self.deq in (l, r) and origin is not None and (l or "").startswith("self.") != (r or "").startswith("self."):
+            same = origin == "attr"
+            val = (same == isinstance(t.ops[0], ast.Is)) != neg
+            return state if val == truth else None
+    return Domain.assume(self, test, truth, state)
+
+
+EnterSafety.assume = _enter_safety_assume
+
+
+def enter_safety_facts(run, f):
+    """C02.R3: an exception leaving enter() must not strand doers already entered into a fresh local deque."""
+    # name of the deque returned by enter
+    deq = None
+    for n in walk_local(f.node):
+        if isinstance(n, ast.Return) and isinstance(n.value, ast.Name):
+            deq = n.value.id
+    if deq is None:
+        raise AnalysisError("enter() does not return its deque by name: %s" % f.fq)
+    res = Interp(EnterSafety(deq), run.lat).run(f.node)
+    run.paths += len(res)
+    facts = []
+    fresh_seen = False
+    for (st, oc), tr in sorted(res.items(), key=lambda kv: str(kv[0])):
+        origin, app, handed = st
+        if origin == "fresh":
+            fresh_seen = True
+        if not is_raise(oc):
+            continue
+        bad = None
+        if origin == "fresh" and app and not handed:
+            bad = ("exception %s leaves enter() while doers already entered by this call sit in the fresh local "
+                   "deque `%s`: they are reachable from nowhere and are never exited" % (oc[1], deq))
+        facts.append(Fact("enter-safety:origin=%s,entered=%s,handed=%s|raise:%s" % (origin, app, handed, oc[1]),
+                          bad is None, bad is None, run.site(f), bad or "", tr, 1))
+    if not fresh_seen:
+        facts.append(Fact("enter-safety:no-fresh-branch", True, True, run.site(f), ""))
+    return facts
+
+
+# ------------------------------------------------------------------ C02.R5
+class MarkerDomain(Domain):
+    """state = marker-in-deque bit during recur."""
+
+    def __init__(self, deq, dog):
+        self.deq, self.dog = deq, dog
+
+    def initial(self):
+        return False
+
+    def on_event(self, node, state):
+        if isinstance(node, ast.Call):
+            mc = method_call(node)
+            if mc and mc[0] == self.deq and mc[1] in ("append", "appendleft") and node.args \
+                    and isinstance(node.args[0], ast.Tuple) \
+                    and all(isinstance(e, ast.Constant) and e.value is None for e in node.args[0].elts):
+                yield True, NORMAL
+                return
+            if mc and mc[0] == self.dog and mc[1] in ("send", "throw"):
+                yield state, NORMAL
+                yield state, RAISE("StopIteration")
+                yield state, RAISE("Exception")
+                return
+            if dotted(node.func) == "next":
+                yield state, NORMAL
+                yield state, RAISE("StopIteration")
+                yield state, RAISE("Exception")
+                return
+        yield state, NORMAL
+
+    def assume(self, test, truth, state):
+        t, neg = test, False
+        while isinstance(t, ast.UnaryOp) and isinstance(t.op, ast.Not):
+            t, neg = t.operand, not neg
+        if dotted(t) == self.dog:
+            is_dog = truth != neg
+            if not is_dog:
+                return False        # marker recognised: no longer in the deque
+            return state
+        return super().assume(test, truth, state)
+
+
+def rotation_hazard_facts(run, cls):
+    ix = run.ix
+    recur, exit_ = ix.method(cls, "recur"), ix.method(cls, "exit")
+    loops = [x for x in deque_loops(recur) if x[3] == "left"]
+    if len(loops) != 1:
+        raise AnalysisError("expected one once-through loop in %s" % recur.fq)
+    loop, popstmt, deq, end, names = loops[0]
+    res = Interp(MarkerDomain(deq, names[0]), run.lat).run(recur.node)
+    run.paths += len(res)
+    hazards = [(oc, tr) for (st, oc), tr in res.items() if is_raise(oc) and st]
+    # does exit use the marker position?
+    eloops = deque_loops(exit_)
+    reorder = []
+    for n in walk_local(exit_.node):
+        if isinstance(n, ast.Call):
+            mc = method_call(n)
+            if mc and mc[1] in ("rotate", "index", "reverse", "sort"):
+                reorder.append(n)
+            elif dotted(n.func) in ("sorted", "reversed"):
+                reorder.append(n)
+    plain_skip = False
+    for eloop, epop, edeq, eend, enames in eloops:
+        for st in eloop.body:
+            if isinstance(st, ast.If) and dotted(st.test.operand if isinstance(st.test, ast.UnaryOp) else st.test) == enames[0]:
+                if all(isinstance(b, (ast.Continue, ast.Pass)) for b in st.body):
+                    plain_skip = True
+    facts = []
+    ok = (not hazards) or bool(reorder) or not plain_skip
+    what = ""
+    trail = None
+    if not ok:
+        oc, trail = sorted(hazards, key=lambda x: len(x[1]))[0]
+        what = ("%s can leave recur() (raise %s) with the once-through marker still in the rotated deque, and exit() "
+                "merely skips the marker: doers already run this cycle (entered earlier) are closed before doers not "
+                "yet run (entered later) - forced exits are not in reverse enter order" % (recur.qualname, oc[1]))
+    facts.append(Fact("rotation-hazard", ok, ok, run.site(exit_), what, trail, len(res)))
+    note = None
+    if hazards and reorder:
+        note = "%s: reordering present in exit() (%s); its correctness is not decided" % (cls.name, unparse(reorder[0]))
+    return facts, note
